@@ -52,7 +52,7 @@ class Spec:
             return v in ('enabled', 'disabled', 'auto')
         if self.kind == 'array':
             items = [x for x in v.split(',')] if v else []
-            return all(x in (self.choices or []) for x in items) if self.choices is not None else True
+            return all(x in self.choices for x in items) if self.choices is not None else True
         raise AssertionError(self.kind)
 
     def constraints(self) -> T.Any:
